@@ -169,9 +169,14 @@ static int goto_start (SNDFILE *sf, long start)
 		}
 }
 
+static int c05_read_setting ;	/* 1: SFC_SET_DITHER_ON_READ issued after the open ("Not implemented" according to docs/command.md: must not change what reads deliver) */
 static void c05_read_history (int type, long start, const int *ks, int depth, int var)
 {	SNDFILE *sf = root_open (&root) ; long p = start ; uint64_t oh = VL_H0 ;
 	if (! sf) { vl_violation (rt_sig ("%s|open-failed", root_sig (&root)), "%s", sf_strerror (NULL)) ; vl_end (1, 1) ; return ; }
+	if (c05_read_setting == 1)
+	{	SF_DITHER_INFO di ; memset (&di, 0, sizeof (di)) ; di.type = SFD_WHITE ; di.level = 1.0 ;
+		INLIB (sf_command (sf, SFC_SET_DITHER_ON_READ, &di, sizeof (di))) ;
+		}
 	if (! goto_start (sf, start)) { vl_note ("start position %ld not reachable", start) ; INLIB (sf_close (sf)) ; vl_end (0, 2) ; return ; }
 	for (int i = 0 ; i < depth ; i++)
 	{	long k = k_value (ks [i], type, p), rf = checked_read (sf, type, (var + i) & 1, p, k, "C05") ;
@@ -330,6 +335,17 @@ static void run_c05 (void)
 							}
 						}
 				}
+			/* the same reads with a read-side command setting in force: all depth-2 request-size histories from frame 0 */
+			for (int type = 0 ; type < T_NTYPES ; type++)
+				for (int code = 0 ; code < KS_N * KS_N ; code++)
+				{	int ks [3] = { code % KS_N, code / KS_N, KS_3 } ;
+					if (vl_case ("C05 RS fmt=%s ch=%d type=%s start=0 k=%d,%d,%d set=dither-on-read", f->name, ch, type_names [type], ks [0], ks [1], ks [2]))
+					{	vl_root_count (f->name) ;
+						rc = root_build (fi, f, ch) ;
+						if (rc <= 0) { vl_end (0, 3) ; continue ; }
+						c05_read_setting = 1 ; c05_read_history (type, 0, ks, depth, code & 1) ; c05_read_setting = 0 ;
+						}
+					}
 			if (f->gran && (f->format & SF_FORMAT_SUBMASK) != SF_FORMAT_DPCM_8 && (f->format & SF_FORMAT_SUBMASK) != SF_FORMAT_DPCM_16)
 				for (int si = 0 ; si < 3 ; si++)
 					for (int code = 0 ; code < 64 ; code++)
